@@ -13,6 +13,7 @@ ID = 'C09'
 TECHNIQUE = 'trace monitor: ordered probe log at every leaf vs the specified evaluation order R5, all truth assignments and raising positions'
 RULE = 'expression shapes built from {13 binary operators, and, or, not, unary -, if-else, host call, method call, pipe call, builtin calls (get, max, list, index_of, join, replace, sorted, pretty, round, split, str, startswith), list, dict, index, 8 slice forms, program-lambda call, index assignment, compound index assignment, name assignment, compound name assignment} nested up to 3 levels, every leaf a probe t(i) (<= 9 probes) or, in variants, a literal (True, False, None, 0, 1, "", "s", [], [0]); for shapes with k <= 6 probes all 2^k truth assignments, otherwise 64 random ones; every probe position as the raising probe; probes return booleans, unique list objects (identity of the deciding operand) or syntax-tree objects of the package; half of the shapes are evaluated on a caching parser (the same tree under every assignment). Non-trivial = the probe log was compared with R5; distinct = distinct (source, assignment, raising position, mode).'
 RULE += ' A third value mode gives the probes host-typed values (fresh binary floats, ints, text, tuples, decimals with trailing zeros); the deciding operand is compared by identity.'
+RULE += ' A raising probe raises one of 18 exception classes (ProbeError alone or combined with TypeError, KeyError, IndexError, ValueError, LookupError, AttributeError, ZeroDivisionError, ArithmeticError, RuntimeError, StopIteration, OverflowError, ...): it must surface once, unchanged.'
 ASSUMPTIONS = ['R5: and/or evaluate the right operand only if undecided and yield the deciding operand; if-else evaluates the condition, then exactly one branch; '
                'everything else evaluates its parts once, left to right (dict: key then value per entry; index assignment: container, key, value), '
                'then applies the operation',
